@@ -1,6 +1,10 @@
 (* Base/GoHeapProofs.v — facts about the container/heap model Base/GoHeap.v:
    up / down restore the heap order, Push and Pop preserve it and the multiset of elements,
-   Pop returns a minimum (no element is `less` than it).  `less` is a strict weak order
+   Pop returns a minimum (no element is `less` than it); Init establishes the order on any slice,
+   Fix repairs it after one element was replaced (fix_pre / set_nth_fix_pre), Remove takes out the
+   element at a position; each keeps the multiset (init_correct, fix_correct, remove_correct;
+   down_correct_from is down on a subtree, down_noop / up_fuel_get_above are the frame lemmas).
+   `less` is a strict weak order
    (irreflexive, transitive, with transitive incomparability-or-greater), which every Less
    derived from a total three-way comparison satisfies. *)
 From Coq Require Import ZArith List Arith Bool Lia ZifyNat Permutation FinFun PeanoNat.
@@ -315,6 +319,299 @@ Section HeapFacts.
         * intros y Hy. rewrite Ex.
           destruct (In_nth h y dflt Hy) as (k & Hk & <-).
           apply (root_min h (length h) O k Hk).
+  Qed.
+
+  (* ================= additions: Init, Fix, Remove ================= *)
+
+  (* the heap order on the part of the tree whose parents are at or below position lo *)
+  Definition heap_from (h : list A) (n lo : nat) : Prop := forall k, 0 < k < n -> lo <= parent k -> ok_at h k.
+
+  Lemma heap_from_0 h n : heap_from h n 0 <-> heap_ok_n h n.
+  Proof. split; intros H k Hk; [apply H; [exact Hk | lia] | intros _; apply H; exact Hk]. Qed.
+
+  Definition down_inv_from (h : list A) (n i lo : nat) : Prop :=
+    (forall k, 0 < k < n -> lo <= parent k -> parent k <> i -> ok_at h k) /\
+    (forall k, 0 < k < n -> parent k = i -> lo <= parent i -> 0 < i -> less (get h k) (get h (parent i)) = false).
+
+  (* down restores the order inside the subtree it works on; down_correct is the case lo = 0 *)
+  Lemma down_correct_from fuel : forall h i n lo, n - i < fuel -> i < n -> n <= length h -> lo <= i ->
+    down_inv_from h n i lo ->
+    let r := fst (down_fuel less dflt fuel h i n) in
+    heap_from r n lo /\ length r = length h /\ Permutation h r /\ (forall k, n <= k -> get r k = get h k) /\
+    (forall k, k < i -> get r k = get h k).
+  Proof.
+    induction fuel as [|f IH]; intros h i n lo Hf Hi Hn Hlo [I1 I2]; [lia|].
+    cbn [down_fuel].
+    destruct (n <=? 2 * i + 1) eqn:Eleaf.
+    - apply Nat.leb_le in Eleaf. cbn [fst].
+      split; [|split; [reflexivity | split; [apply Permutation_refl | split; reflexivity]]].
+      intros k Hk Hl. apply I1; [exact Hk | exact Hl |]. unfold parent. lia.
+    - apply Nat.leb_gt in Eleaf.
+      set (j1 := 2 * i + 1) in *. set (j2 := j1 + 1).
+      set (j := if (j2 <? n) && less (get h j2) (get h j1) then j2 else j1).
+      assert (Hj : j = j1 \/ (j = j2 /\ j2 < n /\ less (get h j2) (get h j1) = true)).
+      { unfold j. destruct (j2 <? n) eqn:E2; cbn [andb]; [|left; reflexivity].
+        destruct (less (get h j2) (get h j1)) eqn:E; [right; split; [reflexivity | split; [apply Nat.ltb_lt; exact E2 | reflexivity]] | left; reflexivity]. }
+      assert (Hjn : j < n) by (destruct Hj as [->|(-> & ? & _)]; lia).
+      assert (Hpj : parent j = i) by (unfold parent, j2, j1 in *; destruct Hj as [->|(-> & _)]; lia).
+      assert (Hij : i < j) by (unfold j2, j1 in *; destruct Hj as [->|(-> & _)]; lia).
+      assert (Hsib : forall k, 0 < k < n -> parent k = i -> k <> j -> less (get h k) (get h j) = false).
+      { intros k Hk Epk Nkj.
+        assert (Hk12 : k = j1 \/ k = j2) by (unfold parent, j2, j1 in *; lia).
+        destruct Hj as [Ej|(Ej & L2 & El2)].
+        - assert (k = j2) by lia. subst k. rewrite Ej. unfold j in Ej.
+          replace (j2 <? n) with true in Ej by (symmetry; apply Nat.ltb_lt; lia). cbn [andb] in Ej.
+          destruct (less (get h j2) (get h j1)) eqn:E; [unfold j2 in Ej; lia | reflexivity].
+        - assert (k = j1) by lia. subst k. rewrite Ej. apply less_asym. exact El2. }
+      destruct (less (get h j) (get h i)) eqn:El; cbn [negb].
+      + assert (Li : i < length h) by lia. assert (Lj : j < length h) by lia.
+        assert (Nij : i <> j) by lia.
+        destruct (IH (swap h i j) j n lo) as (K1 & K2 & K3 & K4 & K5); try lia.
+        * rewrite swap_length. lia.
+        * split.
+          -- intros k Hk Hl Npk. unfold ok_at. rewrite !get_swap by assumption.
+             destruct (k =? j) eqn:Ekj.
+             ++ apply Nat.eqb_eq in Ekj. subst k. rewrite Hpj.
+                replace (i =? j) with false by (symmetry; apply Nat.eqb_neq; lia).
+                rewrite Nat.eqb_refl. apply less_asym. exact El.
+             ++ apply Nat.eqb_neq in Ekj.
+                replace (parent k =? j) with false by (symmetry; apply Nat.eqb_neq; lia).
+                destruct (k =? i) eqn:Eki.
+                ** apply Nat.eqb_eq in Eki. subst k.
+                   assert (Hpi : parent i < i) by (unfold parent; lia).
+                   replace (parent i =? i) with false by (symmetry; apply Nat.eqb_neq; lia).
+                   apply (I2 j); [lia | exact Hpj | exact Hl | lia].
+                ** destruct (parent k =? i) eqn:Epi.
+                   --- apply Nat.eqb_eq in Epi. apply Hsib; assumption.
+                   --- apply Nat.eqb_neq in Epi. apply (I1 k Hk Hl Epi).
+          -- intros k Hk Epk _ _. rewrite !get_swap by assumption. rewrite Hpj.
+             replace (i =? j) with false by (symmetry; apply Nat.eqb_neq; lia).
+             rewrite Nat.eqb_refl.
+             assert (Nk : k <> j /\ k <> i) by (unfold parent in *; lia).
+             replace (k =? j) with false by (symmetry; apply Nat.eqb_neq; lia).
+             replace (k =? i) with false by (symmetry; apply Nat.eqb_neq; lia).
+             assert (O : ok_at h k) by (apply I1; [exact Hk | lia | lia]).
+             unfold ok_at in O. rewrite Epk in O. exact O.
+        * split; [exact K1|]. split; [rewrite K2; apply swap_length|].
+          split; [apply Permutation_trans with (swap h i j); [apply swap_perm; assumption | exact K3]|].
+          split.
+          -- intros k Hk. rewrite K4 by exact Hk. rewrite get_swap by assumption.
+             replace (k =? j) with false by (symmetry; apply Nat.eqb_neq; lia).
+             replace (k =? i) with false by (symmetry; apply Nat.eqb_neq; lia). reflexivity.
+          -- intros k Hk. rewrite K5 by lia. rewrite get_swap by assumption.
+             replace (k =? j) with false by (symmetry; apply Nat.eqb_neq; lia).
+             replace (k =? i) with false by (symmetry; apply Nat.eqb_neq; lia). reflexivity.
+      + cbn [fst].
+        split; [|split; [reflexivity | split; [apply Permutation_refl | split; reflexivity]]].
+        intros k Hk Hl. destruct (Nat.eq_dec (parent k) i) as [Epk|Npk]; [|apply I1; assumption].
+        unfold ok_at. rewrite Epk.
+        destruct (Nat.eq_dec k j) as [->|Nkj]; [exact El|].
+        apply (nless_trans _ (get h j)); [apply Hsib; assumption | exact El].
+  Qed.
+
+  (* ---------- heap.Init ---------- *)
+
+  Lemma init_from_correct k : forall h n, n <= length h -> k <= n -> heap_from h n k ->
+    let r := init_from less dflt k h n in
+    heap_ok_n r n /\ length r = length h /\ Permutation h r /\ (forall j, n <= j -> get r j = get h j).
+  Proof.
+    induction k as [|k IH]; intros h n Hn Hk Hf.
+    - cbn [init_from]. split; [apply heap_from_0; exact Hf|]. split; [reflexivity|]. split; [apply Permutation_refl | reflexivity].
+    - cbn [init_from]. unfold down.
+      destruct (down_correct_from (S n) h k n k) as (K1 & K2 & K3 & K4 & _); try lia.
+      + split.
+        * intros j Hj Hl Np. apply Hf; [exact Hj | lia].
+        * intros j Hj Epj Hl H0. exfalso. unfold parent in Hl. lia.
+      + destruct (down_fuel less dflt (S n) h k n) as [h' i'] eqn:Ed. cbn [fst] in *.
+        destruct (IH h' n) as (J1 & J2 & J3 & J4); try lia.
+        * exact K1.
+        * split; [exact J1|]. split; [lia|]. split; [apply Permutation_trans with h'; assumption|].
+          intros j Hj. rewrite J4 by exact Hj. apply K4. exact Hj.
+  Qed.
+
+  (* heap.Init establishes the heap order on any slice and keeps its elements *)
+  Theorem init_correct h : heap_ok (heap_init less dflt h) /\ Permutation h (heap_init less dflt h) /\
+    length (heap_init less dflt h) = length h.
+  Proof.
+    unfold heap_init.
+    destruct (init_from_correct (length h / 2) h (length h)) as (K1 & K2 & K3 & _).
+    - lia.
+    - apply Nat.div_le_upper_bound; lia.
+    - intros k Hk Hl. exfalso. unfold parent in Hl.
+      pose proof (Nat.div_mod (length h) 2 ltac:(lia)). pose proof (Nat.mod_upper_bound (length h) 2 ltac:(lia)).
+      pose proof (Nat.div_mod (k - 1) 2 ltac:(lia)). pose proof (Nat.mod_upper_bound (k - 1) 2 ltac:(lia)). lia.
+    - split; [unfold heap_ok; rewrite K2; exact K1|]. split; [exact K3 | exact K2].
+  Qed.
+
+  (* ---------- heap.Fix ---------- *)
+
+  (* down leaves the heap alone when no child sorts before position i *)
+  Lemma down_noop fuel h i n : 0 < fuel ->
+    (forall k, 0 < k < n -> parent k = i -> less (get h k) (get h i) = false) ->
+    down_fuel less dflt fuel h i n = (h, i).
+  Proof.
+    intros Hf Hc. destruct fuel as [|f]; [lia|]. cbn [down_fuel].
+    destruct (n <=? 2 * i + 1) eqn:Eleaf; [reflexivity|]. apply Nat.leb_gt in Eleaf.
+    set (j1 := 2 * i + 1) in *. set (j2 := j1 + 1).
+    set (j := if (j2 <? n) && less (get h j2) (get h j1) then j2 else j1).
+    assert (Hjn : 0 < j < n /\ parent j = i).
+    { unfold j. destruct (j2 <? n) eqn:E2; cbn [andb].
+      - apply Nat.ltb_lt in E2. destruct (less (get h j2) (get h j1)); unfold parent, j2, j1 in *; lia.
+      - unfold parent, j1 in *. lia. }
+    rewrite (Hc j (proj1 Hjn) (proj2 Hjn)). reflexivity.
+  Qed.
+
+  Lemma up_fuel_get_above fuel : forall h j k, j < length h -> j < k -> get (up_fuel less dflt fuel h j) k = get h k.
+  Proof.
+    induction fuel as [|f IH]; intros h j k Lj Hk; [reflexivity|].
+    cbn [up_fuel]. fold (parent j).
+    destruct ((parent j =? j) || negb (less (get h j) (get h (parent j)))); [reflexivity|].
+    assert (Hp : parent j <= j) by (unfold parent; lia).
+    rewrite IH; [|rewrite swap_length; lia | lia].
+    rewrite get_swap by lia.
+    replace (k =? j) with false by (symmetry; apply Nat.eqb_neq; lia).
+    replace (k =? parent j) with false by (symmetry; apply Nat.eqb_neq; lia). reflexivity.
+  Qed.
+
+  (* the position i was changed arbitrarily in a heap: every relation not involving i holds, and
+     the children of i respect the parent of i (as they did before the change) *)
+  Definition fix_pre (h : list A) (n i : nat) : Prop :=
+    (forall k, 0 < k < n -> k <> i -> parent k <> i -> ok_at h k) /\
+    (forall k, 0 < k < n -> parent k = i -> 0 < i -> less (get h k) (get h (parent i)) = false).
+
+  (* the body of heap.Fix / heap.Remove on the first n positions: if !down(h, i, n) { up(h, i) } *)
+  Lemma fix_n_correct h i n : i < n -> n <= length h -> fix_pre h n i ->
+    let r := (let '(h', moved) := down less dflt h i n in if moved then h' else up less dflt h' i) in
+    heap_ok_n r n /\ length r = length h /\ Permutation h r /\ (forall k, n <= k -> get r k = get h k).
+  Proof.
+    intros Hi Hn [F1 F2]. unfold down, up.
+    destruct (less (get h i) (get h (parent i)) && (0 <? i)) eqn:Eok.
+    - (* the new element sorts before its parent: no child sorts before it, down is a no-op, up repairs *)
+      apply andb_true_iff in Eok. destruct Eok as [El E0]. apply Nat.ltb_lt in E0.
+      assert (Hc : forall k, 0 < k < n -> parent k = i -> less (get h k) (get h i) = false).
+      { intros k Hk Epk. destruct (less (get h k) (get h i)) eqn:E; [|reflexivity].
+        rewrite <- (F2 k Hk Epk E0). symmetry. apply (less_trans _ _ _ E El). }
+      rewrite (down_noop (S n) h i n ltac:(lia) Hc). rewrite Nat.ltb_irrefl.
+      destruct (up_correct (S i) h i n) as (K1 & K2 & K3); try lia.
+      + split.
+        * intros k Hk Nk. destruct (Nat.eq_dec (parent k) i) as [Epk|Npk]; [unfold ok_at; rewrite Epk; apply Hc; assumption | apply F1; assumption].
+        * exact F2.
+      + split; [exact K1|]. split; [exact K2|]. split; [exact K3|].
+        intros k Hk. apply up_fuel_get_above; lia.
+    - (* the new element respects its parent: down works on a valid down_inv; up is then a no-op or harmless *)
+      assert (Oi : 0 < i -> ok_at h i).
+      { intro E0. unfold ok_at. destruct (less (get h i) (get h (parent i))) eqn:E; [|reflexivity].
+        replace (0 <? i) with true in Eok by (symmetry; apply Nat.ltb_lt; exact E0). discriminate. }
+      destruct (down_correct (S n) h i n) as (K1 & K2 & K3 & K4); try lia.
+      + split.
+        * intros k Hk Npk. destruct (Nat.eq_dec k i) as [->|Nk]; [apply Oi; lia | apply F1; assumption].
+        * exact F2.
+      + destruct (down_fuel less dflt (S n) h i n) as [h' i'] eqn:Ed. cbn [fst] in *.
+        destruct (i <? i'); [split; [exact K1|]; split; [exact K2|]; split; [exact K3 | exact K4]|].
+        destruct (up_correct (S i) h' i n) as (J1 & J2 & J3); try lia.
+        * split.
+          -- intros k Hk _. apply K1. exact Hk.
+          -- intros k Hk Epk E0.
+             assert (Hp : parent i < i) by (unfold parent; lia).
+             apply (nless_trans _ (get h' i)).
+             ++ pose proof (K1 k Hk) as O. unfold ok_at in O. rewrite Epk in O. exact O.
+             ++ apply (K1 i). lia.
+        * split; [exact J1|]. split; [lia|]. split; [apply Permutation_trans with h'; assumption|].
+          intros k Hk. rewrite up_fuel_get_above by lia. apply K4. exact Hk.
+  Qed.
+
+  (* heap.Fix(h, i) after h[i] was replaced: the result is a heap with the same elements *)
+  Theorem fix_correct h i : i < length h -> fix_pre h (length h) i ->
+    heap_ok (heap_fix less dflt h i) /\ Permutation h (heap_fix less dflt h i) /\
+    length (heap_fix less dflt h i) = length h.
+  Proof.
+    intros Hi F. unfold heap_fix.
+    destruct (fix_n_correct h i (length h) Hi (le_n _) F) as (K1 & K2 & K3 & _).
+    split; [unfold heap_ok; rewrite K2; exact K1|]. split; [exact K3 | exact K2].
+  Qed.
+
+  (* replacing one element of a heap satisfies fix_pre at that position *)
+  Lemma set_nth_fix_pre h i x : heap_ok h -> i < length h -> fix_pre (set_nth h i x) (length h) i.
+  Proof.
+    intros O Hi. split.
+    - intros k Hk Nk Np. unfold ok_at. rewrite !get_set_nth by exact Hi.
+      replace (k =? i) with false by (symmetry; apply Nat.eqb_neq; lia).
+      replace (parent k =? i) with false by (symmetry; apply Nat.eqb_neq; lia). apply O. exact Hk.
+    - intros k Hk Epk E0. rewrite !get_set_nth by exact Hi.
+      assert (Hp : parent i < i) by (unfold parent; lia).
+      replace (k =? i) with false by (symmetry; apply Nat.eqb_neq; unfold parent in *; lia).
+      replace (parent i =? i) with false by (symmetry; apply Nat.eqb_neq; lia).
+      apply (nless_trans _ (get h i)).
+      + pose proof (O k Hk) as Ok. unfold ok_at in Ok. rewrite Epk in Ok. exact Ok.
+      + apply (O i). lia.
+  Qed.
+
+  (* ---------- heap.Remove ---------- *)
+
+  Lemma heap_ok_firstn h n : heap_ok h -> n <= length h -> heap_ok (firstn n h).
+  Proof.
+    intros O Hn. unfold heap_ok. rewrite firstn_length_le by exact Hn. intros k Hk. unfold ok_at.
+    assert (Hp : parent k < k) by (unfold parent; lia).
+    rewrite !firstn_get by lia. apply O. lia.
+  Qed.
+
+  Lemma heap_remove_nonempty h i : h <> [] ->
+    heap_remove less dflt h i =
+    Some (let n := length h - 1 in
+          let h1 := if n =? i then h
+                    else let hs := swap h i n in
+                         let '(hd, moved) := down less dflt hs i n in
+                         if moved then hd else up less dflt hd i in
+          (get h1 n, firstn n h1)).
+  Proof. destruct h; [contradiction | reflexivity]. Qed.
+
+  Theorem remove_correct h i : heap_ok h -> i < length h ->
+    exists h', heap_remove less dflt h i = Some (get h i, h') /\ heap_ok h' /\
+               Permutation h (get h i :: h') /\ length h = S (length h').
+  Proof.
+    intros O Hi. assert (Nh : h <> []) by (intro E; rewrite E in Hi; cbn in Hi; lia).
+    rewrite (heap_remove_nonempty h i Nh). cbv zeta.
+    set (n := length h - 1). assert (Hn : length h = S n) by (unfold n; lia). clearbody n.
+    destruct (n =? i) eqn:Eni.
+    - apply Nat.eqb_eq in Eni. subst i. exists (firstn n h). split; [reflexivity|].
+      split; [apply heap_ok_firstn; [exact O | lia]|].
+      split; [|rewrite firstn_length_le by lia; exact Hn].
+      rewrite (firstn_snoc_get h n Hn) at 1. apply Permutation_sym, Permutation_cons_append.
+    - apply Nat.eqb_neq in Eni. assert (Hin : i < n) by lia.
+      set (hs := swap h i n).
+      assert (Ls : length hs = length h) by apply swap_length.
+      assert (Gs : forall k, get hs k = if k =? n then get h i else if k =? i then get h n else get h k)
+        by (intro k; apply get_swap; lia).
+      destruct (fix_n_correct hs i n Hin ltac:(lia)) as (K1 & K2 & K3 & K4).
+      + split.
+        * intros k Hk Nk Np. unfold ok_at. rewrite !Gs.
+          assert (Hp : parent k < k) by (unfold parent; lia).
+          replace (k =? n) with false by (symmetry; apply Nat.eqb_neq; lia).
+          replace (k =? i) with false by (symmetry; apply Nat.eqb_neq; lia).
+          replace (parent k =? n) with false by (symmetry; apply Nat.eqb_neq; lia).
+          replace (parent k =? i) with false by (symmetry; apply Nat.eqb_neq; lia).
+          apply O. lia.
+        * intros k Hk Epk E0. rewrite !Gs.
+          assert (Hp : parent i < i) by (unfold parent; lia).
+          replace (k =? n) with false by (symmetry; apply Nat.eqb_neq; lia).
+          replace (k =? i) with false by (symmetry; apply Nat.eqb_neq; unfold parent in *; lia).
+          replace (parent i =? n) with false by (symmetry; apply Nat.eqb_neq; lia).
+          replace (parent i =? i) with false by (symmetry; apply Nat.eqb_neq; lia).
+          apply (nless_trans _ (get h i)).
+          -- pose proof (O k ltac:(lia)) as Ok. unfold ok_at in Ok. rewrite Epk in Ok. exact Ok.
+          -- apply (O i). lia.
+      + set (r := let '(h', moved) := down less dflt hs i n in if moved then h' else up less dflt h' i) in *.
+        exists (firstn n r).
+        assert (Ex : get r n = get h i) by (rewrite K4 by lia; rewrite Gs, Nat.eqb_refl; reflexivity).
+        rewrite Ex. split; [reflexivity|].
+        assert (Lr : length r = S n) by lia.
+        split; [|split].
+        * unfold heap_ok. rewrite firstn_length_le by lia. intros k Hk. unfold ok_at.
+          assert (Hp : parent k < k) by (unfold parent; lia).
+          rewrite !firstn_get by lia. apply K1. exact Hk.
+        * apply Permutation_trans with r; [apply Permutation_trans with hs; [apply swap_perm; lia | exact K3]|].
+          rewrite (firstn_snoc_get r n Lr) at 1. rewrite Ex. apply Permutation_sym, Permutation_cons_append.
+        * rewrite firstn_length_le by lia. exact Hn.
   Qed.
 
   (* heap.Init on the empty heap (newStoreHeap) *)
